@@ -85,6 +85,11 @@ class KindFlow:
         toks = prov(self.fn, l, 8)
         return ("c:peek" in toks or "c:next_terminal" in toks) and "f:kind" in toks
 
+    def is_peek_place(self, place):
+        toks = prov(self.fn, place_local(place), 8)
+        has_kind = "kind" in place_fields(place) or "f:kind" in toks
+        return has_kind and ("c:peek" in toks or "c:next_terminal" in toks)
+
     def edge_facts(self, bb):
         """{succ: kinds-set} for switches that test peek().kind; kinds-set ('in', {..}) or ('notin', {..})."""
         fn = self.fn
@@ -92,7 +97,7 @@ class KindFlow:
         out = {}
         if not info:
             return out
-        if info[0] == "disc" and info[2].endswith("kind::SyntaxKind") and self.is_peek_kind(place_local(info[1])):
+        if info[0] == "disc" and info[2].endswith("kind::SyntaxKind") and self.is_peek_place(info[1]):
             explicit = set()
             by = defaultdict(set)
             for v, s in switch_edges(fn, bb):
@@ -106,7 +111,7 @@ class KindFlow:
                 out[t[3]] = ("notin", explicit)
             return out
         call = None
-        if info[0] == "call" and info[1].name() in ("eq", "ne") and "SyntaxKind" in info[1].path:
+        if info[0] == "call" and info[1].name() in ("eq", "ne") and ("SyntaxKind" in info[1].path or any("SyntaxKind" in g_ for g_ in info[1].gargs)):
             call, neg = info[1], info[1].name() == "ne"
             via_req = False
         elif info[0] == "disc" and info[2] in ("core::ops::control_flow::ControlFlow", "core::option::Option"):
@@ -152,7 +157,7 @@ class KindFlow:
             for df in fn.defs().get(x, []):
                 if df[0] == "call":
                     c = df[2]
-                    if c.name() in ("eq", "ne") and "SyntaxKind" in c.path:
+                    if c.name() in ("eq", "ne") and ("SyntaxKind" in c.path or any("SyntaxKind" in g_ for g_ in c.gargs)):
                         return c
                     if c.name() in ("require", "branch", "ok_or", "then_some", "then"):
                         for a in c.args:
@@ -302,6 +307,7 @@ def run(ctx):
     results = {}
     for rnd in range(4):
         call_states = defaultdict(list)
+        contexts = defaultdict(list)
         results = {}
         for p, f in pfns.items():
             kf = KindFlow(F, f, names, summaries)
@@ -310,6 +316,9 @@ def run(ctx):
             for c in f.calls():
                 if c.bb in at and c.path in pfns:
                     call_states[c.path].append(at[c.bb])
+                    gen = pfns[c.path].d.get("generics") or []
+                    if gen and len(gen) == len(c.gargs):
+                        contexts[c.path].append((at[c.bb], dict(zip(gen, c.gargs)), f, c))
         new_entry = {}
         for p in pfns:
             sts = call_states.get(p)
@@ -341,6 +350,23 @@ def run(ctx):
             key = "%s|take::<%s>#%d" % (fn_key(p), tname, ords[(p, tname)])
             ok = st is not TOP and len(st) >= 1 and st <= want
             msg = "next terminal kind before take::<%s> is %s" % (tname, "unknown (no dominating test)" if st is TOP else sorted(st))
+            if not ok and generic and tname in (f.d.get("generics") or []) and contexts.get(p):
+                # a take on a type parameter: check every instantiating call site separately
+                bad = []
+                for (s_in, subst, cf, cc) in contexts[p]:
+                    conc = subst.get(tname, "")
+                    ck = kind_of_terminal(F, conc)
+                    if not ck.startswith("Terminal") or ck == "Terminal":
+                        bad.append("%s instantiates %s with %s" % (last_seg(cf.path), tname, conc[:30]))
+                        continue
+                    at2 = KindFlow(F, f, names, summaries).run(s_in)
+                    st2 = at2.get(c.bb, TOP)
+                    if st2 is not TOP:
+                        st2 = set(ck if x == "KIND:" + tname else x for x in st2)
+                    if st2 is TOP or not (len(st2) >= 1 and st2 <= {ck}):
+                        bad.append("%s<%s=%s>: %s" % (last_seg(cf.path), tname, ck, "unknown" if st2 is TOP else sorted(st2)))
+                ok = not bad
+                msg = "take::<%s> checked per instantiation (%d call sites): %s" % (tname, len(contexts[p]), "all establish the kind" if ok else "; ".join(bad[:3]))
             if not ok and key in exc:
                 used.add(key)
                 ok = True
